@@ -829,8 +829,12 @@ class SymAVM:
     def _bytes_const(self, v):
         if isinstance(v, Tmpl):
             if self.cfg.concrete is not None:
+                if v.kind == "addr" or v.name.startswith("TMPL_ADDR"):
+                    return Bs([int(self.cfg.concrete.get("%s#%d" % (v.name, i), 0)) for i in range(32)])
                 return Bs(list(self.cfg.concrete.get(v.name, b"")))
-            if v.kind == "addr":
+            if v.kind == "addr" or v.name.startswith("TMPL_ADDR"):
+                # (family convention: address templates are named TMPL_ADDR*, so the assembled
+                # form `pushbytes TMPL_ADDRx` denotes the same 32 unknown bytes)
                 return Bs([z3.BitVec("%s#%d" % (v.name, i), 8) for i in range(32)])
             # template bytes: unknown length; model as opaque constant
             return Ob(z3.Const(v.name, BytesSort))
